@@ -620,19 +620,19 @@ void h_asin_acos_twin(void)
 /* the same identity at one named point of each region of the |Im| formula (x < 1 and x >= 1 with a <= 1.5; a > 1.5).
    On correct code this is implied by asin_acos_twin; it exists because the solver finds a counterexample of the symbolic
    obligation only after > 5 min, whereas a difference at a named point is found in well under a minute. */
-#define TWIN_AT(x0, y0, txt)                                                                     \
-    do {                                                                                         \
-        Z2(s, x0, y0); Z2(c, x0, y0);                                                            \
+#define H_TWIN_AT(n, x0, y0, txt)                                                                \
+    void h_asin_acos_twin_##n(void)                                                              \
+    {                                                                                            \
+        IN2(re, im);                                                                             \
+        ASSUME(re == (x0) && im == (y0));                                                        \
+        Z2(s, re, im); Z2(c, re, im);                                                            \
         a_complex_asin_(&s); a_complex_acos_(&c);                                                \
         ASSERT(SAME(s.imag, -c.imag), "asin_/acos_: Im asin z == -Im acos z at z = " txt);       \
-    } while (0)
-void h_asin_acos_twin_points(void)
-{
-    TWIN_AT(0.5, 0.25, "0.5 + 0.25i (|Re z| < 1, a <= 1.5)");
-    TWIN_AT(1.25, 0.25, "1.25 + 0.25i (|Re z| > 1, a <= 1.5)");
-    TWIN_AT(3, 2, "3 + 2i (a > 1.5)");
-    VERIF_CANARY();
-}
+        VERIF_CANARY();                                                                          \
+    }
+H_TWIN_AT(p1, 0.5, 0.25, "0.5 + 0.25i (|Re z| < 1, a <= 1.5)")
+H_TWIN_AT(p2, 1.25, 0.25, "1.25 + 0.25i (|Re z| > 1, a <= 1.5)")
+H_TWIN_AT(p3, 3, 2, "3 + 2i (a > 1.5)")
 /* atan: cuts are the imaginary axis outside (-i, i); poles at +-i */
 void h_atan(void)
 {
@@ -652,6 +652,27 @@ void h_atan(void)
     {
         if (im > 0) { ASSERT(z.imag >= 0, "atan_: Im atan z >= 0 in the upper half plane (log1p branch)"); }
         if (im < 0) { ASSERT(z.imag <= 0, "atan_: Im atan z <= 0 in the lower half plane (log1p branch)"); }
+    }
+    /* the field formulas: Re atan z = atan2(2x, 1 - |z|^2)/2, Im atan z = ln(|z + i| / |z - i|)/2 = (log1p(u) - log1p(-u))/4, u = 2y/(|z|^2 + 1) */
+    if (im != 0)
+    {
+        a_real const r1 = a_real_hypot(re, im), u1 = 2 * im / (r1 * r1 + 1);
+        if (a_real_abs(u1) < A_REAL_C(0.1))
+        {
+            a_real const ei = A_REAL_C(0.25) * (a_real_log1p(u1) - a_real_log1p(-u1));
+            ASSERT(SAME(z.imag, ei), "atan_: Im atan z = (log1p(u) - log1p(-u))/4, u = 2y/(|z|^2 + 1), for |u| < 0.1");
+        }
+        else
+        {
+            a_real const a1 = a_real_hypot(re, im + 1), b1 = a_real_hypot(re, im - 1);
+            a_real const ei = A_REAL_C(0.5) * a_real_log(a1 / b1);
+            ASSERT(SAME(z.imag, ei), "atan_: Im atan z = ln(|z + i| / |z - i|)/2 for |u| >= 0.1");
+        }
+        if (re != 0)
+        {
+            a_real const er = A_REAL_C(0.5) * a_real_atan2(2 * re, (1 + r1) * (1 - r1));
+            ASSERT(SAME(z.real, er), "atan_: Re atan z = atan2(2x, (1 + |z|)(1 - |z|))/2 off the imaginary axis");
+        }
     }
     CANARY_AT(re == 1 && im == 1);
 }
